@@ -4,8 +4,12 @@ package c09
 // router.RouteConfig and the C09 statement only:
 //
 //   * criteria of different kinds combine with AND;
-//   * the source-address kinds (fromPrefixes, fromPrefixSets) combine with OR, the destination
-//     kinds (toDomains, toDomainSets, toPrefixes, toPrefixSets) combine with OR;
+//   * the source-address kinds (fromPrefixes ∪ fromPrefixSets, fromGeoIPCountries) combine with OR,
+//     the destination kinds (toDomains ∪ toDomainSets, toPrefixes ∪ toPrefixSets, toGeoIPCountries)
+//     combine with OR;
+//   * "IP addresses in these countries": the country is country.iso_code of the record the GeoLite2
+//     country database holds for the address (longest network, MaxMind DB lookup rules); an address
+//     without a record, or with a record that names no country, is in no country;
 //   * each invert flag negates its own criterion;
 //   * "toMatchedDomainExpected…" *requires* (AND) the matched domain to resolve into the prefixes;
 //   * IP criteria on a domain target use the address the resolver returns (the route's named
@@ -25,6 +29,7 @@ import (
 
 	"github.com/database64128/shadowsocks-go/router"
 
+	"verif/internal/mmdbx"
 	"verif/internal/routex"
 )
 
@@ -144,7 +149,24 @@ type routeModel struct {
 	toPort   *portModel
 }
 
+// geoModel is the country database of a world: the entries the harness wrote into the file.
+type geoModel struct {
+	table mmdbx.Table
+	path  string
+}
+
+// kinds of GeoIP criteria (bits of world.geoFlip)
+const (
+	geoFrom uint8 = 1
+	geoTo   uint8 = 2
+	geoExp  uint8 = 4
+)
+
 type world struct {
+	geo *geoModel // nil: no geoLite2CountryDbPath
+	// counterfactual switch used only for the label "geoip-decides": the verdict of the GeoIP
+	// criteria of these kinds is negated
+	geoFlip   uint8
 	servers   []string
 	tcp       map[string]bool
 	udp       map[string]bool
@@ -214,9 +236,78 @@ type evalInfo struct {
 	// through a failing resolver: the route simply does not match
 	cheapFalseResolverFails bool
 	degenerate              []string // labels for degenerate list members met by this request
+	geo                     []string // labels of the GeoIP criteria evaluated for this request
 	fromRepr                string
 	toRepr                  string
 	port0VsSet              string // "", "from-<repr>", "to-<repr>"
+}
+
+// inCountries: is an address whose database country is c "in these countries"? An address that has
+// no country is in none; whether a list member "" (accepted at load, not a country) stands for
+// "no country" is not documented, so both verdicts are accepted for that one combination.
+func inCountries(list []string, c string, info *evalInfo) uint8 {
+	if c == "" {
+		if slices.Contains(list, "") {
+			info.geo = append(info.geo, "geoip-open/no-country-vs-empty-list-member")
+			return vT | vF
+		}
+		return vF
+	}
+	return b3(slices.Contains(list, c))
+}
+
+// geoMatch evaluates "IP addresses in these countries" for one address.
+func (w *world) geoMatch(list []string, a netip.Addr, kind uint8, info *evalInfo) uint8 {
+	g := func(l string) { info.geo = append(info.geo, l) }
+	tab := w.geo.table
+	e, found := tab.Lookup(a)
+	switch {
+	case !found:
+		g("geoip-addr-not-in-db")
+	case e.Country == "":
+		g("geoip-record-without-country")
+	default:
+		if rest, ok := (mmdbx.Table{Entries: entriesWithout(tab.Entries, e.Prefix), NoAlias: tab.NoAlias}).Lookup(a); ok && rest.Country != e.Country {
+			g("geoip-longest-network-decides")
+		}
+		if !e.Prefix.Addr().Is4() && a.Unmap().Is4() && (a.Is4() || !tab.NoAlias) {
+			g("geoip-v4-address-under-v6-network")
+		}
+	}
+	if slices.Contains(list, "") {
+		g("geoip-list-contains-empty")
+	}
+	res := inCountries(list, e.Country, info)
+	if a.Is4In6() {
+		g("geoip-mapped-address")
+		if tab.NoAlias {
+			// A database without the ::ffff:0:0/96 alias (the published GeoLite2 files have it) holds
+			// nothing of its own for IPv4-mapped addresses. Whether the address is taken literally or as
+			// the IPv4 address it stands for (as the prefix criteria do) is not documented: both accepted.
+			e4, _ := tab.Lookup(a.Unmap())
+			res |= inCountries(list, e4.Country, info)
+			if res == vT|vF {
+				g("geoip-open/mapped-address-no-alias")
+			}
+		}
+	}
+	if res == vT {
+		g("geoip-in-listed-country")
+	}
+	if w.geoFlip&kind != 0 {
+		res = not3(res)
+	}
+	return res
+}
+
+func entriesWithout(es []mmdbx.Entry, p netip.Prefix) []mmdbx.Entry {
+	out := make([]mmdbx.Entry, 0, len(es))
+	for _, e := range es {
+		if e.Prefix != p {
+			out = append(out, e)
+		}
+	}
+	return out
 }
 
 // evalRoute returns the set of acceptable verdicts of one route for one request.
@@ -286,12 +377,30 @@ func (w *world) evalRoute(rm *routeModel, q *request) (uint8, evalInfo) {
 		}
 		acc = and3(acc, inv(b3(rm.fromPort.set[q.Src.Port()]), rc.InvertFromPorts))
 	}
-	if len(rc.FromPrefixes) > 0 || len(rc.FromPrefixSets) > 0 {
-		if len(rc.FromPrefixes) > 0 && len(rc.FromPrefixSets) > 0 {
-			info.orGroup = true
+	hasFromPrefix := len(rc.FromPrefixes) > 0 || len(rc.FromPrefixSets) > 0
+	hasFromGeo := len(rc.FromGeoIPCountries) > 0
+	if hasFromPrefix || hasFromGeo {
+		// the source-address kinds combine with OR; each invert flag negates its own kind
+		group := vF
+		if hasFromPrefix {
+			if len(rc.FromPrefixes) > 0 && len(rc.FromPrefixSets) > 0 {
+				info.orGroup = true
+			}
+			ps := w.prefixes(rc.FromPrefixes, rc.FromPrefixSets)
+			group = or3(group, inv(b3(routex.AnyContains(ps, q.Src.Addr().Unmap())), rc.InvertFromPrefixes))
 		}
-		ps := w.prefixes(rc.FromPrefixes, rc.FromPrefixSets)
-		acc = and3(acc, inv(b3(routex.AnyContains(ps, q.Src.Addr().Unmap())), rc.InvertFromPrefixes))
+		if hasFromGeo {
+			info.geo = append(info.geo, "geoip-from")
+			if rc.InvertFromGeoIPCountries {
+				info.geo = append(info.geo, "geoip-inverted", "geoip-from/inverted")
+			}
+			if hasFromPrefix {
+				info.orGroup = true
+				info.geo = append(info.geo, "geoip-from/or-prefixes")
+			}
+			group = or3(group, inv(w.geoMatch(rc.FromGeoIPCountries, q.Src.Addr(), geoFrom, &info), rc.InvertFromGeoIPCountries))
+		}
+		acc = and3(acc, group)
 	}
 	if rm.toPort != nil {
 		info.toRepr = rm.toPort.repr()
@@ -302,9 +411,12 @@ func (w *world) evalRoute(rm *routeModel, q *request) (uint8, evalInfo) {
 	}
 
 	hasDomain := len(rc.ToDomains) > 0 || len(rc.ToDomainSets) > 0
-	hasExpected := len(rc.ToMatchedDomainExpectedPrefixes) > 0 || len(rc.ToMatchedDomainExpectedPrefixSets) > 0
+	hasExpPrefix := len(rc.ToMatchedDomainExpectedPrefixes) > 0 || len(rc.ToMatchedDomainExpectedPrefixSets) > 0
+	hasExpGeo := len(rc.ToMatchedDomainExpectedGeoIPCountries) > 0
+	hasExpected := hasExpPrefix || hasExpGeo
 	hasPrefix := len(rc.ToPrefixes) > 0 || len(rc.ToPrefixSets) > 0
-	if hasDomain || hasPrefix {
+	hasToGeo := len(rc.ToGeoIPCountries) > 0
+	if hasDomain || hasPrefix || hasToGeo {
 		members := 0
 		group := vF
 		if hasDomain {
@@ -335,8 +447,37 @@ func (w *world) evalRoute(rm *routeModel, q *request) (uint8, evalInfo) {
 						info.errKind = ek
 					} else {
 						info.resolved = true
-						eps := w.prefixes(rc.ToMatchedDomainExpectedPrefixes, rc.ToMatchedDomainExpectedPrefixSets)
-						exp = inv(b3(routex.AnyContains(eps, ip.Unmap())), rc.InvertToMatchedDomainExpectedPrefixes)
+						var expP, expG uint8
+						if hasExpPrefix {
+							eps := w.prefixes(rc.ToMatchedDomainExpectedPrefixes, rc.ToMatchedDomainExpectedPrefixSets)
+							expP = inv(b3(routex.AnyContains(eps, ip.Unmap())), rc.InvertToMatchedDomainExpectedPrefixes)
+						}
+						if hasExpGeo {
+							info.geo = append(info.geo, "geoip-expected")
+							if rc.InvertToMatchedDomainExpectedGeoIPCountries {
+								info.geo = append(info.geo, "geoip-inverted", "geoip-expected/inverted")
+							}
+							if dm {
+								info.geo = append(info.geo, "geoip-expected/domain-matched")
+							}
+							expG = inv(w.geoMatch(rc.ToMatchedDomainExpectedGeoIPCountries, ip, geoExp, &info), rc.InvertToMatchedDomainExpectedGeoIPCountries)
+						}
+						switch {
+						case hasExpPrefix && hasExpGeo:
+							// Two "Require the matched domain target to resolve to IP addresses in these …"
+							// sentences: read as one requirement over the union of the address kinds (OR, as
+							// for every other pair of address kinds) or as two requirements (AND). The comments
+							// do not decide; both are accepted.
+							exp = or3(expP, expG) | and3(expP, expG)
+							info.geo = append(info.geo, "geoip-expected/with-expected-prefixes")
+							if or3(expP, expG) != and3(expP, expG) {
+								info.geo = append(info.geo, "geoip-open/expected-prefixes-and-countries")
+							}
+						case hasExpGeo:
+							exp = expG
+						default:
+							exp = expP
+						}
 					}
 					member = and3(b3(dm), exp)
 				}
@@ -363,6 +504,37 @@ func (w *world) evalRoute(rm *routeModel, q *request) (uint8, evalInfo) {
 				} else {
 					info.resolved = true
 					member = inv(b3(routex.AnyContains(ps, ip.Unmap())), rc.InvertToPrefixes)
+				}
+			}
+			group = or3(group, member)
+		}
+		if hasToGeo {
+			members++
+			info.geo = append(info.geo, "geoip-to")
+			if rc.InvertToGeoIPCountries {
+				info.geo = append(info.geo, "geoip-inverted", "geoip-to/inverted")
+			}
+			var member uint8
+			switch {
+			case q.IsIP:
+				info.geo = append(info.geo, "geoip-to-ip-target")
+				member = inv(w.geoMatch(rc.ToGeoIPCountries, q.IP, geoTo, &info), rc.InvertToGeoIPCountries)
+			case rc.DisableNameResolutionForIPRules:
+				// "Do not resolve destination domains to match IP rules": a domain target is not an IP
+				// address in these countries (same reading as for the prefix member)
+				info.geo = append(info.geo, "geoip-to-domain-not-resolved")
+				member = inv(vF, rc.InvertToGeoIPCountries)
+			default:
+				ip, ek, sk := w.lookup(rc, q.Domain)
+				info.skipped = info.skipped || sk
+				if ek != "" {
+					member = vE
+					info.errKind = ek
+					info.geo = append(info.geo, "geoip-to-domain-resolver-fails")
+				} else {
+					info.resolved = true
+					info.geo = append(info.geo, "geoip-to-domain-resolved")
+					member = inv(w.geoMatch(rc.ToGeoIPCountries, ip, geoTo, &info), rc.InvertToGeoIPCountries)
 				}
 			}
 			group = or3(group, member)
